@@ -10,6 +10,7 @@ import (
 	"encoding/binary"
 	"encoding/hex"
 	"fmt"
+	"golang.org/x/crypto/sha3"
 	"math/big"
 	"sync"
 )
@@ -129,6 +130,12 @@ func (c *Chain) appendLocked() *Block {
 		for j := range tx.Logs {
 			tx.Logs[j].Idx = li
 			li++
+			// the header's bloom filter, as a node computes it (yellow paper 4.3.1): the address and every topic of
+			// every log of the block
+			bloomAdd(b.Bloom, tx.Logs[j].Addr)
+			for _, t := range tx.Logs[j].Topics {
+				bloomAdd(b.Bloom, t)
+			}
 		}
 	}
 	c.canon = append(c.canon, b)
@@ -229,4 +236,14 @@ func (c *Chain) String() string {
 		s += fmt.Sprintf("%d:v%d ", b.Num, b.Version)
 	}
 	return s
+}
+
+func bloomAdd(bloom, d []byte) {
+	h := sha3.NewLegacyKeccak256()
+	h.Write(d)
+	k := h.Sum(nil)
+	for _, i := range []int{0, 2, 4} {
+		bit := (int(k[i])<<8 | int(k[i+1])) & 2047
+		bloom[255-bit/8] |= 1 << (bit % 8)
+	}
 }
